@@ -30,8 +30,8 @@ def _m(world, level, runs, budget, rule, simtime_unit, distinct, real, stub, ass
         assumptions=assumptions,
         faults_not_applicable=NOT_APPLICABLE_FAULTS,
         run_cap_s=180,
-        shrink_tests=40,
-        shrink_s=150,
+        shrink_tests=30,
+        shrink_s=75,
     )
     d.update(kw)
     return d
@@ -53,5 +53,77 @@ META = {
             "the final end_epoch/tune call of the last epoch is only observable through tuning infos (public API only; no private engine fields are read)",
             "sampled, not exhaustive: schedules <= 6 epochs, durations <= 24, chains <= 4",
         ],
+    ),
+    "C08": _m(
+        "E", "exploration", (64, 3000), (420, 3000),
+        "Each run = one plan: chains 1-4, 1-3 probe kernels writing unique attributable values f(chain, global time, kernel, "
+        "element) into scalar/vector/matrix keys of int32/float32 dtype, a valid schedule with thinning on warm-up and posterior "
+        "epochs, a chunk size dividing all durations (plus a second chunk size for the chunk-independence twin), tracked-key "
+        "selections (included/excluded), 0-2 quantity generators, kernel-state storage on/off, an API script. Non-trivial = at "
+        "least one transition; distinct = distinct (epoch list, chunk, tracked keys, script shape).",
+        "kernel transitions x chains (MCMC iterations)",
+        "distinct (schedule incl. thinning, chunk size, tracked-key set, API-script shape) tuples",
+        E_REAL, E_STUB,
+        [
+            "attribution by uniqueness: each stored value decodes to the (chain, time, kernel) that wrote it",
+            "warm-up thinning that does not divide the duration keeps iterations k, 2k, ... (floor(duration/k) samples), as the statement says",
+            "sampled, not exhaustive",
+        ],
+    ),
+    "C10": _m(
+        "E", "exploration", (48, 3000), (480, 3000),
+        "Each run = one plan of two kinds. probe: world-E plan (1-6 chains, 1-4 key-recording probe kernels, schedule, chunk, "
+        "API script, 0-2 quantity generators, engine / EngineBuilder / EngineBuilder with per-chain states) executed twice with "
+        "fresh objects. rw: real RWKernel(s) on a Gaussian dict model through EngineBuilder with replicated or per-chain initial "
+        "states, jitter (none / deterministic shift / key-using bounded noise), int seed vs PRNGKey twin, and a twin in which one "
+        "chain's start is perturbed. Non-trivial = at least one transition executed; distinct = distinct configuration tuple.",
+        "kernel transitions x chains (MCMC iterations)",
+        "distinct (chains, chunk, construction path, kernels, schedule, script, jitter, perturbation) tuples",
+        E_REAL + ["liesel.goose.RWKernel, mh_step (rw sub-batch)"], E_STUB + ["Gaussian dict log-density (rw sub-batch)"],
+        [
+            "key distinctness is checked over all keys observable through the public results (transition keys, lifecycle-call keys up to the last transition, init keys, quantity-generator keys)",
+            "cross-process / PYTHONHASHSEED reproducibility is covered by ./check selftest-determinism whose digests include these results",
+            "64-bit key collisions among <= 1e5 honest keys have probability < 1e-9 and are ignored",
+        ],
+    ),
+}
+
+
+# ---------------------------------------------------------------------------- MANIFEST texts
+
+PENDING = "check not built yet in this session (see DESIGN.md section 7 build order); no claim is made"
+NOT_APPLICABLE = {f"C{i:02d}": PENDING for i in range(1, 21)}
+NOT_APPLICABLE["C18"] = (
+    "pure mathematical functions of their arguments (degenerate MVN, Gaussian copula, algebraic sigmoid): no schedule, "
+    "clock, fault, history or interleaving for a simulator to drive; input generation against a closed form belongs to "
+    "another technique family (DESIGN.md section 4, C18)"
+)
+
+MANIFEST_TEXT = {
+    "C10": dict(
+        technique="deterministic simulation: twin / perturbed-twin engine runs and in-band PRNG-key recording by probe kernels",
+        design_ref="DESIGN.md section 4 C10, section 3 world E",
+        level_text="Seeded search over chain counts, schedules, chunk sizes, construction paths (Engine, EngineBuilder with replicated "
+        "and per-chain states), jitter functions; twin runs must be bit-identical, all recorded PRNG keys pairwise distinct, "
+        "perturbing one chain must not change another, first samples must equal the jittered initial values. Sampling, not a proof.",
+        level_note="Trusted: jax PRNG (threefry) as a PRF; probe kernels and the Gaussian dict model are stubs; builder, engine, "
+        "kernel sequence, RWKernel are real.",
+    ),
+    "C08": dict(
+        technique="deterministic simulation: attributable probe values through the real Engine/chains vs RefEngine storage model, chunk-size twins",
+        design_ref="DESIGN.md section 4 C08, section 3 world E",
+        level_text="Seeded search over thinning x chunking x schedule x tracked-key selections; every stored sample is attributed to "
+        "the iteration that produced it and compared with a reference storage model; twin runs with another chunk size must be "
+        "bit-identical. Sampling, not a proof.",
+        level_note="Trusted: RefEngine storage model, jax. Probe kernels are stubs; engine, chains, builder, pytree utilities are real.",
+    ),
+    "C07": dict(
+        technique="deterministic simulation: seeded schedules/API scripts of the real Engine with probe kernels vs RefEngine",
+        design_ref="DESIGN.md section 4 C07, section 3 world E",
+        level_text="Seeded search over epoch schedules, chunk sizes, chain/kernel counts and API-call interleavings; every kernel "
+        "call is hashed in-band by probe kernels and compared, per chain and iteration, with an executable reference of the "
+        "documented lifecycle. Sampling of a large schedule space, not a proof.",
+        level_note="Trusted: RefEngine as reading of the documentation; jax. Probe kernels are stubs; the engine, epoch manager, "
+        "chains, kernel sequence and mixin dispatch are real code from /repo's working tree.",
     ),
 }
